@@ -16,5 +16,6 @@ ENTRY = {'modules': ['VirtioVerif.Props.C10'],
                 "custom backend; an independent oracle evaluates the specification's register-map predicates "
                 '(32-bit width, table offsets, direction, interface version, QueueSel discipline, '
                 'ready-last, write-back of the interrupt status, Status:=0 on drop, probe acceptance) on the '
-                'real trace. One deviation is recorded as a known finding: read_config_generation reads '
-                'offset 0xfc on legacy devices.'}
+                'real trace. The one deviation found (read_config_generation read offset 0xfc on legacy '
+                'devices) was fixed in /repo 058e2dd; all_legal is now proved without exception and the '
+                'legacy-generation stream keeps the regression covered.'}
